@@ -215,6 +215,22 @@ theorem step_life {s : Server} (op : SOp) (h : Life s) : Life (s.step op).1 := b
       · exact h.gone x hx
   | close => exact close_life h
   | reopen => exact reopen_life h
+  | closeall => exact ⟨h.gone, h.cx⟩
+  | closeix ca => simp only [Server.step]; split <;> exact ⟨h.gone, h.cx⟩
+  | rxix ca =>
+    simp only [Server.step]
+    split
+    · exact h
+    · split
+      · exact ⟨h.gone, h.cx⟩
+      · split
+        · refine ⟨?_, h.cx⟩
+          intro x hx
+          simp only [List.mem_cons] at hx
+          rcases hx with rfl | hx
+          · exact Rem.close_closed _
+          · exact h.gone x hx
+        · exact ⟨h.gone, h.cx⟩
 
 theorem run_life (ops : List SOp) : ∀ {s : Server}, Life s → Life (s.run ops) := by
   induction ops with
@@ -314,8 +330,31 @@ theorem Cli.serviceConnect_tidy {c : Cli} (rc : Nat) (h : c.Tidy) : (c.serviceCo
       · exact Cli.retry_tidy h1
       · exact h1
 
+theorem Cli.serviceIO_tidy {c : Cli} (h : c.Tidy) : (c.serviceIO).1.Tidy := by
+  unfold Cli.serviceIO
+  simp only
+  split <;> exact h
+
+theorem Cli.service_tidy {c : Cli} (rc : Nat) (h : c.Tidy) : (c.service rc).1.Tidy := by
+  unfold Cli.service
+  have h1 := Cli.serviceConnect_tidy rc h
+  generalize c.serviceConnect rc = r at h1
+  obtain ⟨c1, e⟩ := r
+  cases e with
+  | some e => exact h1
+  | none => exact Cli.serviceIO_tidy h1
+
 theorem Cli.step_tidy {c : Cli} (op : COp) (h : c.Tidy) : (c.step op).1.Tidy := by
   cases op with
+  | feed sends recvs => simp only [Cli.step]; split <;> exact h
+  | wind t => exact h
+  | tx d => exact h
+  | service rc hs =>
+    simp only [Cli.step]
+    apply Cli.service_tidy
+    split
+    · exact h
+    · exact h
   | reopen => exact Cli.reopen_tidy h
   | close => exact (Cli.close_tidy h).1
   | tick d => exact h
@@ -345,6 +384,7 @@ def Cli.Calm (c : Cli) : Prop := ∀ h ∈ c.hsq, HsOK h
 
 def COp.ok : COp → Prop
   | .connect _ (some h) => HsOK h
+  | .service _ _ => False   -- full passes with socket I/O are the subject of `client_service_total_partial`
   | _ => True
 
 theorem wantRead_hs_ok : HsOK (.fault Gen.Tcp.wantRead) := Or.inl (by decide +kernel)
@@ -422,6 +462,10 @@ theorem Cli.step_calm {c : Cli} (op : COp) (ho : op.ok) (h : c.Calm) : (c.step o
   | reopen => exact ⟨rfl, Cli.reopen_calm c⟩
   | close => exact ⟨rfl, Cli.close_calm h⟩
   | tick d => exact ⟨rfl, h⟩
+  | wind t => exact ⟨rfl, h⟩
+  | feed sends recvs => simp only [Cli.step]; split <;> exact ⟨trivial, h⟩
+  | tx d => exact ⟨rfl, h⟩
+  | service rc hs => exact absurd ho (by simp [COp.ok])
   | connect rc hs =>
     simp only [Cli.step]
     apply Cli.serviceConnect_calm
